@@ -13,9 +13,12 @@ git reset -q
 echo "== pytest with change:"; /venv/bin/python -m pytest -q -p no:cacheprovider 2>&1 | tail -3
 echo "== demo with change:"; (PYTHONPATH=. /venv/bin/python $dir/demo.py 2>&1 | grep -v conda | tail -2; echo "exit=${PIPESTATUS[0]}")
 cd /verif
+# the evidence files of the unchanged tree must survive: keep them aside while the checks run against the changed tree
+ev=/verif/_work/evidence_keep_$$; rm -rf $ev; mkdir -p $ev; cp /verif/evidence/*.json $ev/ 2>/dev/null
 for p in $props; do
   echo "== check $p against the changed tree:"
   VERIF_REPO=$wt ./check $p --tier quick 2>&1 | grep -v conda | grep -E "VIOLATION|KNOWN|^\[" | head -4
 done
+cp $ev/*.json /verif/evidence/ 2>/dev/null; rm -rf $ev
 # restore generated constants for /repo
 PYTHONPATH=/repo:/verif /venv/bin/python -c "from harness import common; common.regenerate_all()" >/dev/null 2>&1
